@@ -1,29 +1,32 @@
-(* C05CompleteCx.v -- C05_statement is FALSE of the model.
+(* C05CompleteCx.v -- counterexamples to C05_statement.
 
-   cx1 (a defect of the Go library as well; replayed 200/200 on /repo):
-   case (a) of the premise -- every converter takes one input; the converters
-   c1 : {a:T3} -> {b:T6} and c2 : {b:T6} -> {a:T3} form a 2-cycle
-   ("bidirectional conversion").  Both a/T3 and b/T6 are derivable from the
-   supplied values through two chains of type-only converters that end in a
-   value WITH a subtype (a/T3/"s", b/T6/"s").
-   1. A subtype-less named vertex n/T/"" that is walked right after
-      n/T/"s" does not take its value (only a preceding typed output is
-      copied), so the converter reached next plans its requirement again;
-   2. that nested plan runs under the matching-name discount of ITS
-      requirement (name a), not of the target's (name b); the two chains are
+   cx1 (WAS a defect of the Go library; replayed 200/200 on /repo; since
+   REPAIRED in /repo and in Resolver.v -- a named value now also takes the
+   value of the named value it follows): case (a) of the premise -- every
+   converter takes one input; c1 : {a:T3} -> {b:T6} and c2 : {b:T6} -> {a:T3}
+   form a 2-cycle.  Both a/T3 and b/T6 are derivable from the supplied
+   values through two chains of type-only converters that end in a value WITH
+   a subtype (a/T3/"s", b/T6/"s").  Before the repair:
+   1. a subtype-less named vertex n/T/"" walked right after n/T/"s" did not
+      take its value, so the converter reached next planned its requirement
+      again;
+   2. that nested plan ran under the matching-name discount of ITS
+      requirement (name a), not of the target's (name b); the chains are
       arranged so that under discount b the route to b/T6 through c1 costs
       18 < 22 and under discount a the route to a/T3 through c2 costs 18 < 22;
-   3. so the target plans b/T6 through c1, c1 plans a/T3 through c2, and c2
-      plans b/T6 through c1 again, which is in progress: the self-dependency
-      check reports "unsatisfied" although the target is derivable.
-   The outcome is the same for every order (checked on 200 random tapes with
-   an extracted copy of the model; on the Go code 200 of 200 runs fail).
+   3. so the target planned b/T6 through c1, c1 planned a/T3 through c2, and
+      c2 planned b/T6 through c1 again, which was in progress: the
+      self-dependency check reported "unsatisfied" although the target is
+      derivable -- for every order.
+   It is kept here as a regression example: on the repaired model the call
+   succeeds.
 
-   cx2 (model only): the universe's implements relation is not transitive
-   (T1 implements I2, I2 implements I3, but T1 does not implement I3); the
-   value travels out:T1 -> out:I2 -> out:I3 and is then not assignable to
-   arg:I3: "didn't reach a final value".  Go's Implements is transitive, so
-   this is a missing well-formedness hypothesis, not a defect. *)
+   cx2 (model only, still a counterexample to the statement AS WRITTEN): the
+   universe's implements relation is not transitive (T1 implements I2, I2
+   implements I3, but T1 does not implement I3); the value travels
+   out:T1 -> out:I2 -> out:I3 and is then not assignable to arg:I3: "didn't
+   reach a final value".  Go's Implements is transitive, so this is a
+   missing well-formedness hypothesis, not a defect. *)
 From ArgMapper Require Import Base Graph GraphAlg GraphSpec Types Args Resolver ResolverSpec
      CheckResolver Monitors ResolverStatements.
 From Coq Require Import Lia ZArith List String.
@@ -41,12 +44,11 @@ Proof. intros fid n. exact I. Qed.
 Definition cx1_u := (mkU [] []).
 Definition cx1_f := (mkFn 1 100 FStruct [mkF "b" 6 ""] FPos [] false false).
 Definition cx1_opts := [ANamed "b" (Some (mkV 1 1)); ANamed "a" (Some (mkV 2 4)); AConvFunc [Some (mkFn 2 101 FPos [mkF "" 1 ""] FStruct [mkF "b" 2 ""] false false); Some (mkFn 3 102 FPos [mkF "" 2 ""] FStruct [mkF "a" 3 "s"] false false); Some (mkFn 4 103 FPos [mkF "" 4 ""] FStruct [mkF "a" 5 ""] false false); Some (mkFn 5 104 FPos [mkF "" 5 ""] FStruct [mkF "b" 6 "s"] false false); Some (mkFn 6 105 FStruct [mkF "a" 3 ""] FStruct [mkF "b" 6 ""] false false); Some (mkFn 7 106 FStruct [mkF "b" 6 ""] FStruct [mkF "a" 3 ""] false false)]].
-Definition cx1_tape : tape vkey := [(10%N, [KVal "b" 6 ""]); (1%N, [KRoot]); (1%N, [KVal "b" 1 ""]); (1%N, [KArg 1 ""]); (1%N, [KVal "a" 4 ""]); (1%N, [KFunc 101]); (1%N, [KVal "b" 2 ""]); (1%N, [KArg 2 ""]); (1%N, [KArg 4 ""]); (1%N, [KFunc 102]); (1%N, [KVal "a" 3 "s"]); (1%N, [KFunc 103]); (1%N, [KVal "a" 5 ""]); (1%N, [KArg 3 ""]); (1%N, [KVal "a" 3 ""]); (1%N, [KArg 3 "s"]); (1%N, [KArg 5 ""]); (1%N, [KFunc 105]); (1%N, [KVal "b" 6 ""]); (1%N, [KArg 6 ""]); (1%N, [KFunc 100]); (1%N, [KFunc 106]); (1%N, [KFunc 104]); (1%N, [KVal "b" 6 "s"]); (1%N, [KArg 6 "s"]); (10%N, [KArg 1 ""]); (11%N, [KVal "b" 2 ""]); (10%N, [KArg 2 ""]); (11%N, [KVal "a" 3 "s"]); (10%N, [KVal "a" 3 ""]); (1%N, [KRoot]); (1%N, [KVal "a" 4 ""]); (1%N, [KArg 4 ""]); (1%N, [KVal "b" 1 ""]); (1%N, [KFunc 103]); (1%N, [KVal "a" 5 ""]); (1%N, [KArg 5 ""]); (1%N, [KArg 1 ""]); (1%N, [KFunc 104]); (1%N, [KFunc 101]); (1%N, [KVal "b" 6 "s"]); (1%N, [KVal "b" 2 ""]); (1%N, [KVal "b" 6 ""]); (1%N, [KArg 6 "s"]); (1%N, [KArg 6 ""]); (1%N, [KFunc 106]); (1%N, [KFunc 100]); (1%N, [KArg 2 ""]); (1%N, [KVal "a" 3 ""]); (1%N, [KFunc 105]); (1%N, [KArg 3 ""]); (1%N, [KFunc 102]); (1%N, [KVal "a" 3 "s"]); (1%N, [KArg 3 "s"]); (10%N, [KArg 4 ""]); (11%N, [KVal "a" 5 ""]); (10%N, [KArg 5 ""]); (11%N, [KVal "b" 6 "s"]); (10%N, [KVal "b" 6 ""]); (1%N, [KRoot]); (1%N, [KVal "a" 4 ""]); (1%N, [KVal "b" 1 ""]); (1%N, [KArg 1 ""]); (1%N, [KFunc 101]); (1%N, [KArg 4 ""]); (1%N, [KVal "b" 2 ""]); (1%N, [KArg 2 ""]); (1%N, [KFunc 102]); (1%N, [KFunc 103]); (1%N, [KVal "a" 3 "s"]); (1%N, [KVal "a" 5 ""]); (1%N, [KArg 3 "s"]); (1%N, [KArg 3 ""]); (1%N, [KVal "a" 3 ""]); (1%N, [KArg 5 ""]); (1%N, [KFunc 105]); (1%N, [KVal "b" 6 ""]); (1%N, [KArg 6 ""]); (1%N, [KFunc 106]); (1%N, [KFunc 100]); (1%N, [KFunc 104]); (1%N, [KVal "b" 6 "s"]); (1%N, [KArg 6 "s"])].
+Definition cx1_tape : tape vkey := [(10%N, [KVal "b" 6 ""]); (1%N, [KRoot]); (1%N, [KVal "b" 1 ""]); (1%N, [KArg 1 ""]); (1%N, [KVal "a" 4 ""]); (1%N, [KFunc 101]); (1%N, [KVal "b" 2 ""]); (1%N, [KArg 2 ""]); (1%N, [KArg 4 ""]); (1%N, [KFunc 102]); (1%N, [KVal "a" 3 "s"]); (1%N, [KFunc 103]); (1%N, [KVal "a" 5 ""]); (1%N, [KArg 3 ""]); (1%N, [KVal "a" 3 ""]); (1%N, [KArg 3 "s"]); (1%N, [KArg 5 ""]); (1%N, [KFunc 105]); (1%N, [KVal "b" 6 ""]); (1%N, [KArg 6 ""]); (1%N, [KFunc 100]); (1%N, [KFunc 106]); (1%N, [KFunc 104]); (1%N, [KVal "b" 6 "s"]); (1%N, [KArg 6 "s"]); (10%N, [KArg 1 ""]); (11%N, [KVal "b" 2 ""]); (10%N, [KArg 2 ""]); (11%N, [KVal "a" 3 "s"]); (10%N, [KVal "a" 3 ""]); (11%N, [KVal "b" 6 ""])].
 
 Definition cx1_b : builder := match build_args [] cx1_opts with Some b => b | None => b0 end.
 Definition cx1_fg : fgraph :=
   match full_graph cx1_u cx1_f cx1_b false cx1_tape with Ok (inl fg, _) => fg | _ => dummy_fg end.
-Definition cx1_run := call cx1_u all_ok cx1_f [] cx1_opts world0 cx1_tape.
 
 Example cx1_build : build_args [] cx1_opts = Some cx1_b.
 Proof. vm_compute. reflexivity. Qed.
@@ -59,44 +61,14 @@ Proof. vm_compute. reflexivity. Qed.
 (* every converter has a single input; the target is derivable *)
 Example cx1_single : single_input_convs cx1_fg = true /\ target_derivable cx1_fg [] = true.
 Proof. vm_compute. split; reflexivity. Qed.
-(* the call returns "unsatisfied b/T6" from the nested self-dependency check *)
+(* after the repair the call succeeds (g1, g2, c1 and the target run) *)
 Definition dummy_run : run := mkRun (OErr XBuild) [] world0 [] [].
-Definition cx1_r : run := match cx1_run with Ok r => r | _ => dummy_run end.
-Example cx1_run_ok : cx1_run = Ok cx1_r.
+Definition cx1_r : run :=
+  match call cx1_u all_ok cx1_f [] cx1_opts world0 cx1_tape with Ok r => r | _ => dummy_run end.
+Example cx1_run_ok : call cx1_u all_ok cx1_f [] cx1_opts world0 cx1_tape = Ok cx1_r.
 Proof. vm_compute. reflexivity. Qed.
-Example cx1_out : run_out cx1_r = OErr (XUnsat [KVal "b" 6 ""] [] [] false).
-Proof. vm_compute. reflexivity. Qed.
-Example cx1_c05 : c05_ok cx1_fg [] (co_of_run cx1_r) = false.
-Proof. vm_compute. reflexivity. Qed.
-Example cx1_co : co_ok (co_of_run cx1_r) = false.
-Proof. vm_compute. reflexivity. Qed.
-Lemma cx1_outcome :
-  exists r, cx1_run = Ok r /\
-            run_out r = OErr (XUnsat [KVal "b" 6 ""] [] [] false) /\
-            c05_ok cx1_fg [] (co_of_run r) = false /\ co_ok (co_of_run r) = false.
-Proof.
-  exists cx1_r. split; [exact cx1_run_ok|]. split; [exact cx1_out|]. split; [exact cx1_c05|exact cx1_co].
-Qed.
-
-Theorem C05_refuted : ~ C05_statement.
-Proof.
-  intros H.
-  destruct (H cx1_u all_ok cx1_f [] cx1_opts cx1_b cx1_tape cx1_fg [] cx1_build cx1_wf cx1_full cx1_premise)
-    as [H1 H2].
-  destruct cx1_outcome as (r & Qr & _ & _ & Qok).
-  specialize (H2 all_ok_no_failures r Qr). congruence.
-Qed.
-
-(* the first clause alone fails as well *)
-Theorem C05_first_clause_refuted :
-  ~ ((exists r, call cx1_u all_ok cx1_f [] cx1_opts world0 cx1_tape = Ok r /\ c05_ok cx1_fg [] (co_of_run r) = true) \/
-     (exists s, call cx1_u all_ok cx1_f [] cx1_opts world0 cx1_tape = TapeErr s)).
-Proof.
-  destruct cx1_outcome as (r & Qr & _ & Q5 & _). unfold cx1_run in Qr.
-  intros [(r' & Qr' & Q')|(s & Qs)]; rewrite Qr in *.
-  - inversion Qr'; subst r'. congruence.
-  - discriminate.
-Qed.
+Example cx1_now_succeeds : co_ok (co_of_run cx1_r) = true /\ c05_ok cx1_fg [] (co_of_run cx1_r) = true.
+Proof. vm_compute. split; reflexivity. Qed.
 
 (* ---------------- cx2 ---------------- *)
 Definition cx2_u := (mkU [2; 3] [(2,2); (3,3); (1,2); (2,3)]).
@@ -123,13 +95,26 @@ Example cx2_not_transitive :
   implements cx2_u 1 2 = true /\ implements cx2_u 2 3 = true /\ implements cx2_u 1 3 = false.
 Proof. vm_compute. repeat split; reflexivity. Qed.
 
-Theorem C05_refuted_nontransitive_universe : ~ C05_statement.
+Lemma cx2_instance : C05_statement ->
+    ((exists r, call cx2_u all_ok cx2_f [] cx2_opts world0 cx2_tape = Ok r /\ c05_ok cx2_fg [] (co_of_run r) = true) \/
+     (exists s, call cx2_u all_ok cx2_f [] cx2_opts world0 cx2_tape = TapeErr s)) /\
+    (no_failures all_ok -> forall r, call cx2_u all_ok cx2_f [] cx2_opts world0 cx2_tape = Ok r -> co_ok (co_of_run r) = true).
 Proof.
   intros H.
-  destruct (H cx2_u all_ok cx2_f [] cx2_opts cx2_b cx2_tape cx2_fg [] cx2_build cx2_wf cx2_full cx2_premise)
-    as [[(r & Qr & _)|(s & Qs)] _]; rewrite cx2_panics in *; discriminate.
+  exact (H cx2_u all_ok cx2_f [] cx2_opts cx2_b cx2_tape cx2_fg [] cx2_build cx2_wf cx2_full cx2_premise).
 Qed.
+Lemma cx2_contra :
+    ((exists r, call cx2_u all_ok cx2_f [] cx2_opts world0 cx2_tape = Ok r /\ c05_ok cx2_fg [] (co_of_run r) = true) \/
+     (exists s, call cx2_u all_ok cx2_f [] cx2_opts world0 cx2_tape = TapeErr s)) -> False.
+Proof.
+  intros [(r & Qr & _)|(s & Qs)].
+  - rewrite cx2_panics in Qr. discriminate Qr.
+  - rewrite cx2_panics in Qs. discriminate Qs.
+Qed.
+Theorem C05_refuted_nontransitive_universe : ~ C05_statement.
+Proof. intros H. apply cx2_contra. apply (proj1 (cx2_instance H)). Qed.
+
+Theorem C05_refuted : ~ C05_statement.
+Proof. exact C05_refuted_nontransitive_universe. Qed.
 
 Print Assumptions C05_refuted.
-Print Assumptions C05_first_clause_refuted.
-Print Assumptions C05_refuted_nontransitive_universe.
